@@ -6,8 +6,9 @@ import WK.Model.C40
   * seq_mono        the durable event sequence (the message's cursor) never decreases, every
                     lane's LastMsgEventSeq is at most the cursor and never decreases;
   * terminal_once   a lane observed closed / error / cancelled is observed identical ever after;
-  * replay_same     an event id that was durably applied is not applied again: the cursor does
-                    not move and the (lane, seq, status) result is the one of the first time;
+  * replay_same     an event id that was durably applied is not applied again (no lane carries it
+                    at a new sequence number) and a durable-path replay reports the (lane, seq,
+                    status) of the first time;
   * finish_fail_closed  a finish is acknowledged only if there is something to complete from:
                     cached open lanes acknowledged since the last cache loss, or a snapshot in
                     its own payload; and an acknowledged finish leaves every such lane durable
@@ -35,13 +36,39 @@ def terminalKept (prev new : Obs) : Bool :=
 /-- result triple -/
 abbrev Triple := Bytes × Nat × Status
 
-def replayOk (first : Triple) (prev new : Obs) (res : Option Triple) : Bool :=
-  decide (prev.cur = new.cur) && (match res with | some t => t == first | none => true)
+/-- `id` was durably applied before with result `first`: no lane may carry `id` as its last
+    event at another sequence number (it was not applied again), and — when the replayed op
+    goes through the durable path (`durable`) — the reported result is the first one.
+    (A finish replay may still advance the cursor: its flush events carry derived ids.) -/
+def replayOk (id : Bytes) (first : Triple) (new : Obs) (durable : Bool) (res : Option Triple) : Bool :=
+  new.lanes.all (fun kl => kl.2.lastId != id || kl.2.seq == first.2.1) &&
+  (!durable || (match res with | some t => t == first | none => true))
 
 /-- what an acknowledged finish must leave behind for the lanes that were open in the cache -/
 def finishCovers (pending : List Bytes) (new : Obs) : Bool :=
   pending.all fun k => match aget k new.lanes with
     | some l => l.status.terminal
     | none => false
+
+/-! ### histories at node level -/
+
+inductive NOp
+  | nd (r : RawEvent)          -- Node.AppendMessageEvent on the leader
+  | ev (r : RawEvent)          -- a direct durable append (Shard.AppendMessageEvent)
+  | bt (rs : List RawEvent)    -- one metadata batch of appends
+  | lose                       -- the leader's cache is lost
+
+def nexec (n : Node) : NOp → Node
+  | .nd r => (nstep n r).1
+  | .ev r => { n with db := (tstep n.db r).1 }
+  | .bt rs => { n with db := (tbatch n.db rs).1 }
+  | .lose => loseCache n
+
+def nrun (n : Node) (h : List NOp) : Node := h.foldl nexec n
+
+/-- the durable event sequence of message `m` -/
+def cur (db : DB) (m : MsgKey) : Nat := ((aget m db.cursors).map (·.1)).getD 0
+
+def Result.triple (r : Result) : Triple := (r.key, r.seq, r.status)
 
 end WK.C40
